@@ -122,6 +122,8 @@ CRP(db, rp, rf, dur, sgd, def) == [a |-> "CreateRetentionPolicy", c |-> [db |-> 
 TRN(ts) == [a |-> "TruncateShardGroups", c |-> [ts |-> ts]]
 CMN(a, r) == [a |-> "CreateMetaNode", c |-> [addr |-> a, tcp |-> a, rand |-> r]]
 CUS(n, adm) == [a |-> "CreateUser", c |-> [name |-> n, hash |-> "x", admin |-> adm]]
+CSU(db, rp, n) == [a |-> "CreateSubscription", c |-> [db |-> db, rp |-> rp, name |-> n, mode |-> "ALL", dests |-> "d1"]]
+CCQ(db, n, qq) == [a |-> "CreateContinuousQuery", c |-> [db |-> db, name |-> n, q |-> qq]]
 
 PrefixSeq(p) ==
   CASE p = "empty"  -> <<>>
@@ -132,7 +134,7 @@ PrefixSeq(p) ==
     [] p = "trunc"  -> <<CDN("h1"), CDN("h2"), CDB("a", "p", 1, 0, 4 * Hour), CSG("a", "p", 0), TRN(3), CSG("a", "p", 4)>>
     [] p = "trunc0" -> <<CDN("h1"), CDN("h2"), CDB("a", "p", 1, 0, 2 * Hour), CSG("a", "p", 1), TRN(0)>>
     [] p = "meta"   -> <<CMN("h1", 7), CDN("h1"), CDN("h2"), CDB("a", "p", 2, 0, Hour)>>
-    [] p = "acct"   -> <<CDB("a", "p", 1, 0, Hour), CDB("b", "p", 1, 0, Hour), CUS("a", TRUE), CUS("b", FALSE)>>
+    [] p = "acct"   -> <<CDB("a", "p", 1, 0, Hour), CDB("b", "p", 1, 0, Hour), CUS("a", TRUE), CUS("b", FALSE), CSU("a", "p", "a"), CCQ("a", "a", "q1")>>
 
 RECURSIVE RunPrefix(_, _, _, _)
 RunPrefix(d, h, i, p) ==
